@@ -9,7 +9,7 @@
 From Coq Require Import List NArith Bool.
 From Gluon Require Import Gen.FactsFilters Model.FilterPolicy Model.Responders Model.Session Proofs.MirrorProofs Proofs.PopProofs
   Proofs.ConvergeProofs Proofs.MembershipProofs Proofs.ViewProofs Proofs.StoreViewProofs Proofs.CommuteProofs Proofs.InterleaveProofs
-  Proofs.ObserverProofs Proofs.SessionWitness.
+  Proofs.ObserverProofs Proofs.WorldProofs Proofs.SessionWitness.
 Import ListNotations.
 Open Scope N_scope.
 
@@ -208,6 +208,39 @@ Example C02_observer_example :
   (forall m, alt m (ofuture 0%nat 0 (ex_ops ++ [OFlush true]) ex_snap [])) /\
   orun 0%nat 0 (ex_ops ++ [OFlush true]) ex_snap [] = Some ([mkSmsg 2 2 []; mkSmsg 1 3 [5]; mkSmsg 9 4 []], []).
 Proof. exact observer_example. Qed.
+
+(* Database and observer together (one mailbox, the three basic mutators): other parties run any sequence ds of STORE,
+   removals (EXPUNGE / MOVE out / connector removal) and APPENDs on the mailbox the observer has selected (db_run: the
+   functions the model's commands use); the emitted updates reach the observer one by one, its own restricted and
+   permitting flushes fall anywhere in between (oops). After a final NOOP nothing is pending and its snapshot shows what
+   a newly opened session sees: same messages, UIDs and order, same flags but \Recent (same_view). Hypotheses: each
+   database step meets a well-formed database (steps_ok, decidable), the observer starts from the database state, the
+   updates are not its own, the responder stream is well-formed (wf / alt). Example C02_world_example instantiates all
+   of them on a world produced by the model's run. Not covered: COPY / MOVE-in, flag changes stemming from another
+   mailbox, connector flag updates (compared per run only), and the session's own commands (refuted in general). *)
+Theorem C02_silent_observer_matches_database : forall o mb w ds oops snap0,
+  steps_ok mb w ds ->
+  updates_of oops = snd (db_run mb w ds) ->
+  Forall (foreign_upd o) (updates_of oops) ->
+  uniq snap0 -> same_view snap0 (fresh_view w mb) ->
+  wf snap0 (ofuture o mb (oops ++ [OFlush true]) snap0 []) ->
+  (forall m, alt m (ofuture o mb (oops ++ [OFlush true]) snap0 [])) ->
+  exists s', orun o mb (oops ++ [OFlush true]) snap0 [] = Some (s', []) /\
+             same_view s' (fresh_view (fst (db_run mb w ds)) mb).
+Proof. exact silent_observer_matches_database. Qed.
+Print Assumptions C02_silent_observer_matches_database.
+
+Example C02_world_example :
+  steps_ok 0 ex_w0 ex_ds /\
+  updates_of ex_oops = snd (db_run 0 ex_w0 ex_ds) /\
+  Forall (foreign_upd 0%nat) (updates_of ex_oops) /\
+  uniq (fresh_view ex_w0 0) /\
+  wf (fresh_view ex_w0 0) (ofuture 0%nat 0 (ex_oops ++ [OFlush true]) (fresh_view ex_w0 0) []) /\
+  (forall m, alt m (ofuture 0%nat 0 (ex_oops ++ [OFlush true]) (fresh_view ex_w0 0) [])) /\
+  orun 0%nat 0 (ex_oops ++ [OFlush true]) (fresh_view ex_w0 0) []
+    = Some ([mkSmsg 1 1 [1; 4]; mkSmsg 3 3 [1; 4]], []) /\
+  fresh_view (fst (db_run 0 ex_w0 ex_ds)) 0 = [mkSmsg 1 1 [4; 1]; mkSmsg 3 3 [4; 1]].
+Proof. exact world_example. Qed.
 
 (* a repaired defect that the attempt to prove convergence for interleaved flushes exposed (replayed on the server:
    corpus scenario readd-while-held-then-flags; fix: commit dec5b54): with the pop policy before the repair a
